@@ -19,6 +19,7 @@ type PanicInfo struct {
 	File  string
 	LineN int
 	Stack string
+	Raw   any `json:"-"` // the recovered value itself
 }
 
 func (p *PanicInfo) Sig() string {
@@ -86,7 +87,7 @@ func describePanic(r any) *PanicInfo {
 	pcs := make([]uintptr, 64)
 	n := runtime.Callers(3, pcs)
 	frames := runtime.CallersFrames(pcs[:n])
-	pi := &PanicInfo{Value: clip(fmt.Sprint(r), 300), Class: classify(r)}
+	pi := &PanicInfo{Value: clip(fmt.Sprint(r), 300), Class: classify(r), Raw: r}
 	var sb strings.Builder
 	found := false
 	for {
